@@ -133,22 +133,25 @@ structure TInvC (s : State) (th : Thread) : Prop where
   held_fresh : ∀ r i, th.pc.holds = some r → (s.heap r).value = some i → i ∉ th.stale
   ret_val : ∀ i, th.pc = .done (.val i) → i ∉ th.stale
   ret_objs : ∀ l i, th.pc = .done (.objs l) → i ∈ l → i ∉ th.stale
+  started_first : th.started = true ∨ th.pc = firstPc th.op
 
 structure InvC (s : State) : Prop where
   thr : ∀ t, t < s.nThr → TInvC s (s.thr t)
 
 /-! ### layer D: the thread that runs `Close()` -/
 
-def CloseProgress (s : State) (th : Thread) : Prop :=
-  th.op = .close ∧
+/-- where a thread whose operation is `Close()` can be, and what is then left in the map: only the
+entry it is working on and the entries still on its `toClose` list -/
+def CloseRun (s : State) (th : Thread) : Prop :=
   match th.pc with
-  | .done (.errOnly none) => ∀ r, r < s.nHeap → ¬ Entry.inMapOf s r
+  | .done (.errOnly none) => s.closed = true ∧ ∀ r, r < s.nHeap → ¬ Entry.inMapOf s r
   | .rmWaitLoad r | .rmSetClosing r | .rmClosingWait r _ | .inClose r _ =>
-    ∀ r', r' < s.nHeap → Entry.inMapOf s r' → r' = r ∨ r' ∈ th.todo
+    s.closed = true ∧ ∀ r', r' < s.nHeap → Entry.inMapOf s r' → r' = r ∨ r' ∈ th.todo
+  | .closeCollect | .done _ => True
   | _ => False
 
 structure InvD (s : State) : Prop where
-  progress : s.closed = true → ∃ t, t < s.nThr ∧ CloseProgress s (s.thr t)
+  thr : ∀ t, t < s.nThr → (s.thr t).op = .close → CloseRun s (s.thr t)
   close_done : s.closeDone = true → s.closed = true ∧ ∀ r, r < s.nHeap → ¬ Entry.inMapOf s r
 
 /-- the whole invariant (evaluated clause by clause on every visited state by `Check.invFail`) -/
